@@ -1,12 +1,12 @@
 import MiniVecProof.Props.C03World
 import MiniVecProof.Props.C17DedupExact
 /-
-  C10 / C01 / C03 / C12 — VALUES on the register machine (PARTIAL: the 58 operation kinds `astepAll` answers for —
+  C10 / C01 / C03 / C12 — VALUES on the register machine (PARTIAL: the 64 operation kinds `astepAll` answers for —
   constructors incl. `deserialize`, single-vector operations, clone / clone_from / split_off / append, serialize,
   `deserialize_in_place`, leak, all four iterators (`Drain`, `Splice`, `DrainFilter`, `IntoIter`) with every iterator
   step, the provided `nth` / `nth_back` / `count` / `last` (defined from `next` and `drop` the way `core` defines them:
   they return what the list iterator returns and never run out of fuel), `as_slice`, cloning an `IntoIter`; `dedup_by` / `dedup_by_key` (Props/C17DedupExact: exactly `Vec::dedup_by`'s survivors); `dedup` / `remove_item` / `compare` (`==`, `partial_cmp`, `cmp`, equal hashes) with the element type's own `PartialEq`
-  (hypothesis `heq`: the equality script is empty — a misbehaving `PartialEq` is C17's subject); not covered: with_alignment, the raw and spare-capacity API): a refinement of the
+  (hypothesis `heq`: the equality script is empty — a misbehaving `PartialEq` is C17's subject); `from_str` / `extend_ref` (a temporary vector built, measured and dropped inside the operation: the reported length is the string's / the number of pushes), `spare_capacity_mut` / `split_at_spare_mut` / the `into_raw_parts`-`from_raw_parts` and `from_raw_part` round trips (they change no value; the length they report is the value list's, the capacity is left open: `AOut.storage` / `AOut.lenCap`); not covered, of the 66 operation kinds of the register machine: with_alignment (whether it is accepted depends on the element type's alignment, which the value world does not carry: stated separately as `C10_world_with_alignment_values`), fill_spare (how much it writes depends on the capacity)): a refinement of the
   world of `Model/World.lean` (what the line-protocol driver runs against the real code) to an abstract world in which
   a register holds a plain list of values, or an iterator described by the values it still has to yield.
 
@@ -40,6 +40,10 @@ def AW.set (a : AW) (r : String) (o : AObj) : AW := fun r' => if r' = r then som
 
 inductive AOut
   | ok | none | some (v : Int) | hint (lo hi : Nat) | len (n : Nat) | vals (vs : List Int) | err | badOp
+  /-- an answer about the storage (spare room, whether a block exists): the value specification leaves it open -/
+  | storage
+  /-- the length, and a capacity the value specification leaves open; `none` only for a vector that holds nothing -/
+  | lenCap (n : Nat)
   | cmp (eq : Bool) (ord : Ordering)
   deriving DecidableEq
 
@@ -277,6 +281,14 @@ def astep (a : AW) : Op → Option (AW × AOut)
       | some (.intoIter _) => some (a.set r .gone, .ok)
       | some _ => some (a, .badOp)
       | none => some (a, .badOp))
+  | .spare r => onVecA a r (fun vs => some (vs, .storage))
+  | .split_spare r => onVecA a r (fun vs => some (vs, .lenCap vs.length))
+  | .raw_parts r => onVecA a r (fun vs => some (vs, .lenCap vs.length))
+  | .raw_part r => onVecA a r (fun vs => some (vs, .storage))
+  | .from_str n => some (if n > 1048576 then (a, .badOp) else (a, .len n))
+  | .extend_ref pre it =>
+    some (if pre > 4096 || it.length > 4096 then (a, .badOp)
+          else (a, .len (pre + ((it.takeWhile Option.isSome).filterMap id).length)))
   | _ => none
 
 /-- a register of the model describes the abstract one -/
@@ -314,6 +326,12 @@ def OutVal : Out → AOut → Prop
   | .cmp eq pc c heq, .cmp e o => eq = e ∧ pc = some o ∧ c = o ∧ heq = e
   | .err, .err => True
   | .badOp, .badOp => True
+  | .fromStr l, .len n => l = n
+  | .ok, .storage => True
+  | .nums ns, .lenCap n => ∃ c, ns = [n, c]
+  | .none, .lenCap n => n = 0
+  | .nums _, .storage => True
+  | .none, .storage => True
   | _, _ => False
 
 /-- the step answered as the specification does and the worlds are related again; or the allocator (or the capacity
@@ -967,6 +985,79 @@ theorem size_hint_val_ok (w : World) (a a' : AW) (it : String) (ao : AOut) (hrel
 
 variable (heq : ∀ k, X.o.eqScript k = none)
 include heq
+
+omit hq hz heq in
+/-- `MiniVec::<u8>::from(&str)` of `n` bytes: the temporary vector reports exactly `n` elements (or the allocator refused) -/
+theorem fromStrProg_val (Xb : Ctx) (hqb : ∀ k, Xb.o.panicAt k = false) (hzb : 0 < Xb.c.elemSize) (n : Nat) (s : St) (hv : s.v = {}) :
+    (∃ s', fromStrProg Xb n s = (.ok n, s')) ∨ (∃ p s', fromStrProg Xb n s = (.error p, s') ∧ Panic.benign p = true) := by
+  unfold fromStrProg
+  simp only [VM.bind_run]
+  rcases with_capacity_room Xb hzb s hv n with ⟨s1, hr, habs1, hroom, hzero⟩ | ⟨p, s1, hr, hb, _⟩
+  · rw [hr]
+    simp only
+    have hfill : ∃ s2 es, (if n > 0 then fromStrFill Xb n else pure ()) s1 = (.ok (), s2) ∧ Abs Xb s2.v es ∧ es.length = n := by
+      by_cases hn : n > 0
+      · obtain ⟨hd1, hcap1⟩ := hroom hn
+        rw [if_pos hn]
+        obtain ⟨b, hb, hl, _⟩ := habs1.alloc hd1
+        have h4 : VM.lift Xb (as_mut_ptr Xb.env) s1 = (.ok (.at (dataOff s1.v.align)), s1) :=
+          lift_read Xb _ s1 _ (as_mut_ptr_run Xb.env _ hd1 b.lay s1.v.cap hl)
+        obtain ⟨v2, hw, habs2, _, _, hd2, _⟩ := write_tail_abs Xb s1 [] (List.replicate n (⟨0, 97⟩ : Elem)) habs1 hd1
+          (by simp [hcap1])
+        simp only [List.length_nil, List.length_replicate] at hw habs2
+        have h5 := lift_set_len Xb n { s1 with v := v2 } hd2
+        refine ⟨{ s1 with v := { v2 with len := n } }, List.replicate n (⟨0, 97⟩ : Elem), ?_, by simpa using habs2, by simp⟩
+        unfold fromStrFill
+        simp only [VM.bind_run, h4, hw, h5]
+      · rw [if_neg hn]; exact ⟨s1, [], rfl, habs1, by simp; omega⟩
+    obtain ⟨s2, es, hf, habs2, hlen⟩ := hfill
+    rw [hf]
+    simp only
+    have hL : (hsOf s2.v s2.sys.allocIdx).L = es.length := habs2.len_eq
+    have h6 : VM.lift Xb (len Xb.env) s2 = (.ok n, s2) := lift_read Xb _ s2 _ (by rw [len_run, hL, hlen])
+    obtain ⟨s3, hd3⟩ := dropVec_ok Xb hqb s2 es habs2
+    rw [h6]
+    simp only [hd3, VM.pure_run]
+    exact .inl ⟨_, rfl⟩
+  · rw [hr]; exact .inr ⟨p, s1, rfl, hb⟩
+
+omit hq hz heq in
+/-- `Extend<&T>`: `pre` pushes and one push per item: the temporary reports `pre + vals.length` elements -/
+theorem extendRefProg_val (Xb : Ctx) (hqb : ∀ k, Xb.o.panicAt k = false) (hzb : 0 < Xb.c.elemSize) (pre : Nat) (vals : List Int)
+    (s : St) (hv : s.v = {}) :
+    (∃ s', extendRefProg Xb pre vals s = (.ok (pre + vals.length), s')) ∨
+    (∃ p s', extendRefProg Xb pre vals s = (.error p, s') ∧ Panic.benign p = true) := by
+  unfold extendRefProg
+  simp only [VM.bind_run]
+  have hround : ∀ (n : Nat) (g : Nat → Elem), RoundSpec Xb n (fun _ _ => True) (fun i => Vec.push Xb (g i)) := by
+    intro n g i s1 acc _ habs
+    have hp := push_spec Xb s1 acc (g i) habs
+    show (∃ e s', Vec.push Xb (g i) s1 = (.ok (), s') ∧ Abs Xb s'.v (acc ++ [e]) ∧ True) ∨
+      (∃ p s', Vec.push Xb (g i) s1 = (.error p, s') ∧ Panic.benign p = true ∧ s'.v = s1.v)
+    generalize Vec.push Xb (g i) s1 = out at hp
+    cases hp with
+    | pushed s' ha _ => exact .inl ⟨_, s', rfl, ha, trivial⟩
+    | stopped p s' hv' hb => exact .inr ⟨p, s', rfl, hb, hv'⟩
+  rcases with_capacity_room Xb hzb s hv pre with ⟨s1, hr, habs1, _, _⟩ | ⟨p, s1, hr, hb, _⟩
+  · rw [hr]
+    simp only
+    rcases forN_spec Xb pre _ _ (hround pre (fun i => ⟨0, i⟩)) s1 [] habs1 with ⟨l1, s2, hr2, habs2, hl1, _⟩ | ⟨p, s2, acc, hr2, hb, _⟩
+    · rw [hr2]
+      simp only
+      rcases forN_spec Xb vals.length _ _ (hround vals.length (fun i => ⟨0, vals.getD i 0⟩)) s2 _ habs2 with
+        ⟨l2, s3, hr3, habs3, hl2, _⟩ | ⟨p, s3, acc, hr3, hb, _⟩
+      · rw [hr3]
+        simp only
+        have hL : (hsOf s3.v s3.sys.allocIdx).L = ([] ++ l1 ++ l2).length := habs3.len_eq
+        have h6 : VM.lift Xb (len Xb.env) s3 = (.ok (pre + vals.length), s3) :=
+          lift_read Xb _ s3 _ (by rw [len_run, hL]; simp [hl1, hl2])
+        obtain ⟨s4, hd4⟩ := dropVec_ok Xb hqb s3 _ habs3
+        rw [h6]
+        simp only [hd4, VM.pure_run]
+        exact .inl ⟨_, rfl⟩
+      · rw [hr3]; exact .inr ⟨p, s3, rfl, hb⟩
+    · rw [hr2]; exact .inr ⟨p, s2, rfl, hb⟩
+  · rw [hr]; exact .inr ⟨p, s1, rfl, hb⟩
 
 /-- **one step, with the values**: whatever the abstract specification answers for the operation, the model answers
     too, and the worlds are related again -/
@@ -2164,6 +2255,96 @@ theorem C10_world_step_values (w : World) (a a' : AW) (op : Op) (ao : AOut) (hre
           cases ao2 <;> simp only [RegVal] at hv2
           exact hvec ⟨_, _, hao1, hao2⟩
         · exact .inl ⟨trivial, hrel⟩
+  case spare r =>
+    simp only [astep] at hs
+    unfold step
+    refine onVecA_val X w a a' r _ hrel _ ao hs ?_
+    intro vs vs' ao' hg
+    simp only [Option.some.injEq, Prod.mk.injEq] at hg
+    obtain ⟨rfl, rfl⟩ := hg
+    intro s es habs hv
+    exact .inl ⟨Out.nums [(hsOf s.v s.sys.allocIdx).C - es.length], s, es, by simp only [VM.bind_run, (C07_spare_exact X s es habs).1]; rfl, habs, hv, trivial⟩
+  case split_spare r =>
+    simp only [astep] at hs
+    unfold step
+    refine onVecA_val X w a a' r _ hrel _ ao hs ?_
+    intro vs vs' ao' hg
+    simp only [Option.some.injEq, Prod.mk.injEq] at hg
+    obtain ⟨rfl, rfl⟩ := hg
+    intro s es habs hv
+    refine .inl ⟨Out.nums [es.length, (hsOf s.v s.sys.allocIdx).C - es.length], s, es, ?_, habs, hv, ?_⟩
+    · simp only [VM.bind_run, (C07_spare_exact X s es habs).2]; rfl
+    · exact ⟨_, by rw [← hv, List.length_map]⟩
+  case raw_part r =>
+    simp only [astep] at hs
+    unfold step
+    refine onVecA_val X w a a' r _ hrel _ ao hs ?_
+    intro vs vs' ao' hg
+    simp only [Option.some.injEq, Prod.mk.injEq] at hg
+    obtain ⟨rfl, rfl⟩ := hg
+    intro s es habs hv
+    obtain ⟨o, ho⟩ := (raw_roundtrip_run X s es habs 0 0).1
+    cases o with
+    | none => exact .inl ⟨Out.none, s, es, by simp only [VM.bind_run, ho]; rfl, habs, hv, trivial⟩
+    | some lc => exact .inl ⟨Out.ok, s, es, by simp only [VM.bind_run, ho]; rfl, habs, hv, trivial⟩
+  case raw_parts r =>
+    simp only [astep] at hs
+    unfold step
+    refine onVecA_val X w a a' r _ hrel _ ao hs ?_
+    intro vs vs' ao' hg
+    simp only [Option.some.injEq, Prod.mk.injEq] at hg
+    obtain ⟨rfl, rfl⟩ := hg
+    intro s es habs hv
+    have hL : (hsOf s.v s.sys.allocIdx).L = es.length := habs.len_eq
+    have h2 : VM.lift X (len X.env) s = (.ok es.length, s) := lift_read X _ s _ (by rw [len_run, hL])
+    have h3 : VM.lift X (capacity X.env) s = (.ok (hsOf s.v s.sys.allocIdx).C, s) := lift_read X _ s _ (by rw [capacity_run])
+    cases hd : s.v.isDefault with
+    | false =>
+      have h4 := (C14_roundtrip X s es habs hd es.length (hsOf s.v s.sys.allocIdx).C).2
+      refine .inl ⟨Out.nums [es.length, s.v.cap], s, es, ?_, habs, hv, ⟨_, by rw [← hv, List.length_map]⟩⟩
+      simp only [VM.bind_run, h2, h3, h4]; rfl
+    | true =>
+      have hp : VM.lift X (as_mut_ptr X.env) s = (.ok .null, s) :=
+        lift_read X _ s _ (as_mut_ptr_run_default X.env _ (by simp [hsOf, hd]))
+      have h4 : Vec.raw_roundtrip X (Vec.backParts X es.length (hsOf s.v s.sys.allocIdx).C) s = (.ok none, s) := by
+        unfold Vec.raw_roundtrip; simp only [VM.bind_run, hp, VM.pure_run]
+      have hnil : es = [] := (habs.sentinel hd).2
+      refine .inl ⟨Out.none, s, es, ?_, habs, hv, ?_⟩
+      · simp only [VM.bind_run, h2, h3, h4]; rfl
+      · show vs.length = 0
+        rw [← hv, hnil]; rfl
+  case from_str n =>
+    simp only [step]
+    simp only [astep, Option.some.injEq] at hs
+    by_cases hn : n > 1048576
+    · rw [if_pos hn] at hs
+      have h1 := congrArg Prod.fst hs; have h2 := congrArg Prod.snd hs; simp only at h1 h2; subst h1; subst h2
+      rw [if_pos hn]
+      exact .inl ⟨trivial, hrel⟩
+    · rw [if_neg hn] at hs
+      have h1 := congrArg Prod.fst hs; have h2 := congrArg Prod.snd hs; simp only at h1 h2; subst h1; subst h2
+      rw [if_neg hn]
+      simp only [runOn]
+      rcases fromStrProg_val { X with c := ⟨1, 1, false⟩ } hq (by show 0 < 1; omega) n { sys := w.sys, v := {} } rfl with
+        ⟨s', hr⟩ | ⟨p, s', hr, hb⟩
+      · rw [hr]; exact .inl ⟨rfl, hrel.sys _⟩
+      · rw [hr]; exact .inr ⟨p, rfl, hb, a, hrel.sys _⟩
+  case extend_ref pre it =>
+    simp only [step]
+    simp only [astep, Option.some.injEq] at hs
+    by_cases hn : (pre > 4096 || it.length > 4096) = true
+    · rw [if_pos hn] at hs
+      have h1 := congrArg Prod.fst hs; have h2 := congrArg Prod.snd hs; simp only at h1 h2; subst h1; subst h2
+      rw [if_pos hn]
+      exact .inl ⟨trivial, hrel⟩
+    · rw [if_neg hn] at hs
+      have h1 := congrArg Prod.fst hs; have h2 := congrArg Prod.snd hs; simp only at h1 h2; subst h1; subst h2
+      rw [if_neg hn]
+      simp only [runOn]
+      rcases extendRefProg_val { X with c := ⟨4, 4, false⟩ } hq (by show 0 < 4; omega) pre _ { sys := w.sys, v := {} } rfl with
+        ⟨s', hr⟩ | ⟨p, s', hr, hb⟩
+      · rw [hr]; exact .inl ⟨rfl, hrel.sys _⟩
+      · rw [hr]; exact .inr ⟨p, rfl, hb, a, hrel.sys _⟩
   all_goals (simp [astep] at hs)
 
 end steps
@@ -2564,6 +2745,49 @@ theorem consume_val (w : World) (a a' : AW) (it : String) (ao : AOut) (f : List 
             simp only
             exact hloop (o.meas + 2) a2 o ys hai hrem (by omega) hd
 
+omit hq heq in
+/-- `with_alignment`, which `astepAll` does not answer for (whether the alignment is accepted depends on the element
+    type's alignment, which the value world does not carry): the new register holds the empty vector; or the alignment is
+    reported as unacceptable and no register changes; or the allocator refused; a register that is taken is `badOp` -/
+theorem C10_world_with_alignment_values (w : World) (a : AW) (r : String) (n al : Nat) (hrel : Rel X w a) :
+    ((step X w (.with_alignment r n al)).2 = .badOp ∧ a r ≠ none ∧ Rel X (step X w (.with_alignment r n al)).1 a) ∨
+    (a r = none ∧
+      (((step X w (.with_alignment r n al)).2 = .ok ∧ Rel X (step X w (.with_alignment r n al)).1 (a.set r (.vec []))) ∨
+       (∃ e, (step X w (.with_alignment r n al)).2 = .errName e ∧ Rel X (step X w (.with_alignment r n al)).1 a) ∨
+       (∃ p, (step X w (.with_alignment r n al)).2 = .stopped p ∧ Panic.benign p = true ∧
+          Rel X (step X w (.with_alignment r n al)).1 a))) := by
+  simp only [step]
+  cases har : a r with
+  | some ao =>
+    have hf : w.fresh r = false := by
+      cases hf : w.fresh r with
+      | false => rfl
+      | true => have := (hrel.fresh r).mp hf; rw [har] at this; cases this
+    simp only [hf, Bool.not_false, if_true]
+    exact .inl ⟨by first | rfl | trivial, by simp, hrel⟩
+  | none =>
+    have hf : w.fresh r = true := (hrel.fresh r).mpr har
+    simp only [hf, Bool.not_true, Bool.false_eq_true, if_false, runOn]
+    right; refine ⟨by first | rfl | trivial, ?_⟩
+    rcases with_alignment_mem X hz { sys := w.sys, v := {} } rfl n al with ⟨e, hr⟩ | hc
+    · rw [hr]; simp only; right; left; exact ⟨_, by first | rfl | trivial, hrel.sys _⟩
+    · generalize VM.lift X (Gen.with_alignment X.env n al) { sys := w.sys, v := {} } = out at hc
+      cases hc with
+      | same => left; exact ⟨by first | rfl | trivial, (hrel.sys _).set r _ _ ⟨[], Abs.sentinel_abs X hz, rfl⟩⟩
+      | stopped p s' _ hp _ => right; right; exact ⟨p, by first | rfl | trivial, hp, hrel.sys _⟩
+      | grown s' ha _ _ _ _ => left; exact ⟨by first | rfl | trivial, (hrel.sys _).set r _ _ ⟨[], ha, rfl⟩⟩
+
+omit hq hz heq in
+/-- cloning an `IntoIter` answers `ok` or `badOp`, nothing else -/
+theorem clone_iter_out (a a1 : AW) (src t : String) (o1 : AOut) (h : astep a (.clone_iter src t) = some (a1, o1)) :
+    o1 = .ok ∨ o1 = .badOp := by
+  simp only [astep] at h
+  split at h
+  · simp only [Option.some.injEq, Prod.mk.injEq] at h; exact .inr h.2.symm
+  · split at h
+    · simp only [Option.some.injEq, Prod.mk.injEq] at h; exact .inl h.2.symm
+    · simp only [Option.some.injEq, Prod.mk.injEq] at h; exact .inr h.2.symm
+
 /-- `clone_from` between two `IntoIter`s, with the values -/
 theorem cloneFromIter_val (w : World) (a a' : AW) (it src : String) (ao : AOut) (hrel : Rel X w a)
     (hs : acloneFromIter a it src = some (a', ao)) : StepVal X (cloneFromIter X w it src) a a' ao := by
@@ -2623,9 +2847,10 @@ theorem cloneFromIter_val (w : World) (a a' : AW) (it src : String) (ao : AOut) 
                   · simp only at hp hrel''
                     subst hp
                     exact .inr ⟨p, rfl, hb, _, key a'' hrel''⟩
-            | _ =>
+            | badOp =>
               simp only [Option.some.injEq, Prod.mk.injEq] at hs; obtain ⟨rfl, rfl⟩ := hs
               cases out1 <;> simp only [OutVal] at ho1 <;> exact .inl ⟨ho1, hrel1.unset tmpReg⟩
+            | _ => rcases clone_iter_out a a1 src tmpReg _ hc with h | h <;> cases h
           · simp only at hp hrel''
             subst hp
             exact .inr ⟨p, rfl, hb, _, hrel''.unset tmpReg⟩
@@ -2859,8 +3084,20 @@ example : (runA [.macro_list "a" [1, 2, 3], .macro_list "b" [7, 8, 9, 10], .into
     some [.ok, .ok, .ok, .ok, .some 1, .some 10, .ok, .vals [7, 8, 9], .some 7, .vals [8, 9], .vals [7, 8, 9], .badOp] := by
   decide +kernel
 
+/-- `From<&str>` reports the string's length, `Extend<&T>` the pushes made before the source's first `None`; neither touches a register -/
+example : (runA [.macro_list "a" [1, 2], .from_str 0, .from_str 5, .extend_ref 2 [some 7, some 8, none, some 9], .from_str 2000000, .serialize "a"]
+    (fun _ => none)).map (·.2) = some [.ok, .len 0, .len 5, .len 4, .badOp, .vals [1, 2]] := by
+  decide +kernel
+
+/-- looking at the spare capacity and the raw round trip change no value; the lengths they report are the value list's -/
+example : (runA [.macro_list "a" [1, 2, 3], .spare "a", .split_spare "a", .raw_parts "a", .new "e", .raw_parts "e", .push "a" 4, .raw_parts "a",
+    .raw_part "a", .serialize "a", .spare "x"] (fun _ => none)).map (·.2) =
+    some [.ok, .storage, .lenCap 3, .lenCap 3, .ok, .lenCap 0, .ok, .lenCap 4, .storage, .vals [1, 2, 3, 4], .badOp] := by
+  decide +kernel
+
 end MV.Props
 
 #print axioms MV.Props.C10_world_step_values
 #print axioms MV.Props.C10_world_values_partial
 #print axioms MV.Props.C10_world_stepAll_values
+#print axioms MV.Props.C10_world_with_alignment_values
